@@ -3,7 +3,9 @@
 use crate::sched::Sim;
 
 pub mod breq;
+pub mod c07;
 pub mod c08;
+pub mod c10;
 pub mod client;
 pub mod hostile;
 pub mod props_w;
@@ -105,7 +107,9 @@ pub fn all() -> Vec<PropDef> {
     let mut v = Vec::new();
     v.push(selftest::def());
     v.push(server::def_c04());
+    v.push(c07::def());
     v.push(c08::def());
+    v.push(c10::def());
     v.push(fe::def_c02());
     v.push(fe::def_c03());
     v.push(breq::def_c18());
